@@ -75,12 +75,26 @@ var ctors = []func() *expr.Expression{
 		return &expr.Expression{Op: expr.Range, Left: expr.Lit(expr.Column("x")), Right: &expr.RangeBoundary{Min: expr.Lit(1)}}
 	},
 	func() *expr.Expression { return &expr.Expression{Op: expr.Equals, Left: 5, Right: expr.Lit("v")} },
+	// raw (unwrapped) values where the constructors would have put literal expressions
+	func() *expr.Expression {
+		return &expr.Expression{Op: expr.Range, Left: expr.Lit(expr.Column("x")), Right: &expr.RangeBoundary{Min: 1.0, Max: 5, Inclusive: true}}
+	},
+	func() *expr.Expression {
+		return &expr.Expression{Op: expr.Range, Left: expr.Lit(expr.Column("x")), Right: &expr.RangeBoundary{Min: "a", Max: "*"}}
+	},
+	func() *expr.Expression {
+		return &expr.Expression{Op: expr.Equals, Left: expr.Lit(expr.Column("c")), Right: "raw string"}
+	},
+	func() *expr.Expression {
+		return &expr.Expression{Op: expr.And, Left: expr.Eq("a", 1), Right: &expr.Expression{Op: expr.Greater, Left: expr.Lit(expr.Column("n")), Right: 42}}
+	},
+	func() *expr.Expression { return &expr.Expression{Op: expr.Or, Left: "x", Right: 5.5} },
 	func() *expr.Expression {
 		return &expr.Expression{Op: expr.Or, Left: expr.Eq("a", "b"), Right: &expr.Expression{Op: expr.Boost, Left: expr.Lit("c")}}
 	},
 }
 
-const numCtors = 28
+const numCtors = 33
 
 func init() {
 	if len(ctors) != numCtors {
